@@ -219,6 +219,21 @@ def _cells():
         OKM(f"in:ns:{nm}", "ns", "compute", [M])
         OKM(f"in:hon:{nm}", "hon", "compute", [M])
         OKM(f"in:rsp:{nm}", "rsp", "compute", [M])
+    # any rank, including 0
+    for nm, Z in (("zero3x3", {"gen": "zeros", "m": 3, "n": 3}), ("zero4x2", {"gen": "zeros", "m": 4, "n": 2}),
+                  ("rank1_4x4", {"gen": "psvd", "m": 4, "n": 4, "sigma": [1.0, 0.0, 0.0, 0.0], "seed": 3})):
+        OK(f"in:rank:{nm}", "utils.rank", [Z])
+        OK(f"in:null_right:{nm}", "utils.quat_null_space", [Z], {"side": "right"})
+        OK(f"in:null_left:{nm}", "utils.quat_null_space", [Z], {"side": "left"})
+        OK(f"in:qsvd_full:{nm}", "decomp.qsvd.classical_qsvd_full", [Z])
+        OK(f"in:qr:{nm}", "decomp.qsvd.qr_qua", [Z])
+        for o in (None, 1, 2, "inf"):
+            OK(f"in:matrix_norm_{o}:{nm}", "utils.matrix_norm", [Z, o])
+        OK(f"in:real_expand:{nm}", "utils.real_expand", [Z])
+    OK("in:ishermitian:zero3x3", "utils.ishermitian", [{"gen": "zeros", "m": 3, "n": 3}])
+    OK("in:eig:zero3x3", "decomp.quaternion_eigendecomposition", [{"gen": "zeros", "m": 3, "n": 3}])
+    OK("in:hessenbergize:zero3x3", "decomp.hessenberg.hessenbergize", [{"gen": "zeros", "m": 3, "n": 3}])
+    OK("in:det_dieudonne:rank1", "utils.det", [{"gen": "psvd", "m": 4, "n": 4, "sigma": [1.0, 0.0, 0.0, 0.0], "seed": 3}, "Dieudonne"])
     OKM("in:rsp_column:4x1", "rsp", "compute_column_variant", [COL])
     OKM("in:rsp_column:1x1", "rsp", "compute_column_variant", [ONE])
     OKM("in:rsp_row:1x4", "rsp", "compute_row_variant", [ROW])
